@@ -34,6 +34,8 @@ def arr(spec):
         big = np.zeros((a.shape[0] * 2,) + a.shape[1:])
         big[::2] = a
         a = big[::2]
+    if spec.get("dtype"):
+        a = a.astype(spec["dtype"])          # values are chosen exactly representable in the narrower dtype
     if spec.get("readonly"):
         a.setflags(write=False)
     return a
